@@ -5,6 +5,17 @@ import LokiModel.C02.Lemmas
 namespace LokiModel.C02
 open LokiModel.Expr
 
+/-- the control part of a DO head line -/
+def doTail {X} (pe : X → List Tok) (isOne : X → Bool) (lo hi : X) (step : Option X) : Line :=
+  ex (pe lo) ++ [.comma] ++ ex (pe hi) ++
+    (match step with
+     | some s => if isOne s then [] else [.comma] ++ ex (pe s)
+     | none => [])
+
+theorem doHead_eq {X} (pe : X → List Tok) (isOne : X → Bool) (v : String) (lo hi : X) (step : Option X) :
+    doHead pe isOne v lo hi step = kw "do" :: kw v :: .assign :: doTail pe isOne lo hi step := by
+  cases step <;> simp [doHead, doTail]
+
 section
 variable {X Y : Type} (pe : X → List Tok) (re : Nat → List Tok → Option Y) (φ : X → Y) (P : X → Prop)
 
@@ -58,10 +69,8 @@ theorem ex_ne_nil (h : ExprRT pe re φ P) {x : X} (hx : P x) : ex (pe x) ≠ [] 
 
 theorem rdDo_ex (h : ExprRT pe re φ P) (isOne : X → Bool) {lo hi : X} (step : Option X) (hlo : P lo) (hhi : P hi)
     (hs : ∀ s, step = some s → P s) :
-    Ev (fun f => rdDo re f (ex (pe lo) ++ [.comma] ++ ex (pe hi) ++
-      (match step with
-       | some s => if isOne s then [] else [.comma] ++ ex (pe s)
-       | none => []))) (φ lo, φ hi, (normStep isOne step).map φ) := by
+    Ev (fun f => rdDo re f (doTail pe isOne lo hi step)) (φ lo, φ hi, (normStep isOne step).map φ) := by
+  unfold doTail
   obtain ⟨f1, g1⟩ := rdE_ex h hlo
   obtain ⟨f2, g2⟩ := rdE_ex h hhi
   have two : splitComma (ex (pe lo) ++ STok.comma :: ex (pe hi)) = [ex (pe lo), ex (pe hi)] := by
